@@ -29,6 +29,8 @@ func init() {
 			Old: "\treturn append([]byte(nil), w.Bytes()...), nil", New: "\treturn w.Bytes(), nil", Expect: "R-POOL-NO-ESCAPE"},
 		&Mutant{Prop: "C10", Name: "c10-segment-read-unlocked", File: "av/format/hls/playlist.go",
 			Old: "func (pl *Playlist) Segment(seq int) (io.Reader, int, error) {\n\tatomic.StoreInt64(&pl.lastAccessTime, time.Now().UnixNano())\n\tpl.l.RLock()\n\tdefer pl.l.RUnlock()\n", New: "func (pl *Playlist) Segment(seq int) (io.Reader, int, error) {\n\tatomic.StoreInt64(&pl.lastAccessTime, time.Now().UnixNano())\n", Expect: "R-PLAYLIST-LOCKED"},
+		&Mutant{Prop: "C10", Name: "c10-get-outside-lock", File: "av/format/hls/playlist.go",
+			Old: "\tpl.l.RLock()\n\tdefer pl.l.RUnlock()\n\n\tfor _, seg := range pl.segments {\n\t\tif seg.sequenceNo == seq {\n\t\t\treturn seg.file.get()\n\t\t}\n\t}\n\treturn nil, 0, errors.New(\"Not found TSFile\")", New: "\tvar hit *segment\n\tpl.l.RLock()\n\tfor _, seg := range pl.segments {\n\t\tif seg.sequenceNo == seq {\n\t\t\thit = seg\n\t\t}\n\t}\n\tpl.l.RUnlock()\n\tif hit != nil {\n\t\treturn hit.file.get()\n\t}\n\treturn nil, 0, errors.New(\"Not found TSFile\")", Expect: "R-PLAYLIST-LOCKED"},
 		&Mutant{Prop: "C10", Name: "c10-cut-on-any-video", File: "av/format/hls/segmentgenerator.go",
 			Old: "\tif frame.IsKeyFrame() && sg.isSegmentOverflow() {", New: "\tif (frame.IsKeyFrame() && sg.isSegmentOverflow()) || sg.current.duration >= float64(3*sg.hlsFragment) {", Expect: "R-CUT-AT-KEYFRAME"},
 		&Mutant{Prop: "C10", Name: "c10-keep-four", File: "av/format/hls/playlist.go",
@@ -281,6 +283,36 @@ func rulePlaylistLocked(c *Ctx) {
 		}
 	}
 	c.Floor("accesses to Playlist.segments", n, 8)
+	// operations on a listed segment's storage (get/delete) must happen under the playlist lock:
+	// rollover recycles the storage, so a reader that copies outside the lock reads a recycled buffer
+	for _, fn := range p.FuncsInPkg("av/format/hls") {
+		if fn.Signature.Recv() == nil || !typeIs(fn.Signature.Recv().Type(), modRel("av/format/hls"), "Playlist") {
+			continue
+		}
+		entry := lockSet("")
+		if entryLocked[fn] {
+			entry = entry.with(lk, 'W')
+		}
+		var bad ssa.Instruction
+		found := false
+		np := locksAt(fn, entry, func(ins ssa.Instruction, h lockSet) {
+			cc := callCommon(ins)
+			if cc == nil || !cc.IsInvoke() || (cc.Method.Name() != "get" && cc.Method.Name() != "delete") {
+				return
+			}
+			if _, isDefer := ins.(*ssa.Defer); isDefer {
+				return
+			}
+			found = true
+			if !h.holds(lk, cc.Method.Name() == "delete") {
+				bad = ins
+			}
+		})
+		c.paths += np
+		if found {
+			c.Decide(bad == nil, "segment-storage-locked:"+fname(fn), p.Pos(fn.Pos()), "segment storage read/deleted under the playlist lock", "a listed segment's storage is read (get) or deleted outside the playlist lock: a fetch overlapping a rollover copies from a buffer that has been recycled for the next segment")
+		}
+	}
 }
 
 // ------------------------------------------------------------ R-CUT-AT-KEYFRAME
@@ -543,24 +575,76 @@ func ruleM3u8Fields(c *Ctx) {
 		tokOK = passes && guarded
 	}
 	c.Decide(tokOK, "m3u8:token", p.Pos(m3.Pos()), "URIs carry the caller's token when given", "segment URIs do not carry the caller's token on the token-present edge")
-	// Segment(seq): get() only on the equality edge
+	// Segment(seq): get() is applied to an entry that was selected by sequenceNo == seq
 	c.touched(fname(sg))
+	// bases (segment pointers) compared equal with the seq parameter, and the block entered on that edge
+	type sel struct {
+		base ssa.Value
+		blk  *ssa.BasicBlock
+	}
+	var sels []sel
+	for _, b := range sg.Blocks {
+		ifi, ok := b.Instrs[len(b.Instrs)-1].(*ssa.If)
+		if !ok {
+			continue
+		}
+		bo, ok := ifi.Cond.(*ssa.BinOp)
+		if !ok || bo.Op != token.EQL {
+			continue
+		}
+		f, base, ok1 := fieldLoad(bo.X)
+		if ok1 && f.Name() == "sequenceNo" && origin(bo.Y) == ssa.Value(sg.Params[1]) {
+			sels = append(sels, sel{base, b.Succs[0]})
+		}
+	}
+	var selected func(v ssa.Value, at *ssa.BasicBlock, depth int) bool
+	selected = func(v ssa.Value, at *ssa.BasicBlock, depth int) bool {
+		if depth > 4 {
+			return false
+		}
+		for _, s := range sels {
+			if s.base == v && (at == nil || s.blk == at || s.blk.Dominates(at)) {
+				return true
+			}
+		}
+		switch x := v.(type) {
+		case *ssa.Phi:
+			okAll, any := true, false
+			for i, e := range x.Edges {
+				if isNilConst(e) || e == ssa.Value(x) {
+					continue
+				}
+				any = true
+				if !selected(e, x.Block().Preds[i], depth+1) {
+					okAll = false
+				}
+			}
+			return okAll && any
+		case *ssa.UnOp:
+			if al, ok := x.X.(*ssa.Alloc); ok {
+				okAll, any := true, false
+				for _, r := range referrersOf(al) {
+					if st, ok := r.(*ssa.Store); ok && st.Addr == ssa.Value(al) && !isNilConst(st.Val) {
+						any = true
+						if !selected(st.Val, st.Block(), depth+1) {
+							okAll = false
+						}
+					}
+				}
+				return okAll && any
+			}
+		}
+		return false
+	}
 	okSeg := false
 	instrs(sg, func(ins ssa.Instruction) {
 		cc := callCommon(ins)
 		if cc == nil || !cc.IsInvoke() || cc.Method.Name() != "get" {
 			return
 		}
-		blk := ins.Block()
-		if len(blk.Preds) == 1 {
-			if ifi, ok := blk.Preds[0].Instrs[len(blk.Preds[0].Instrs)-1].(*ssa.If); ok && blk.Preds[0].Succs[0] == blk {
-				if b, ok := ifi.Cond.(*ssa.BinOp); ok && b.Op == token.EQL {
-					f, _, ok1 := fieldLoad(b.X)
-					if ok1 && f.Name() == "sequenceNo" && origin(b.Y) == ssa.Value(sg.Params[1]) {
-						okSeg = true
-					}
-				}
-			}
+		f, base, ok := fieldLoad(cc.Value)
+		if ok && f.Name() == "file" && selected(base, ins.Block(), 0) {
+			okSeg = true
 		}
 	})
 	c.Decide(okSeg, "segment:lookup-by-number", p.Pos(sg.Pos()), "Segment(seq) serves the entry whose number equals seq", "Segment(seq) does not select the entry by sequenceNo == seq")
